@@ -20,6 +20,7 @@ type c16Case struct {
 	Op    string `json:"op,omitempty"`    // mutate: "del", "dup", "set", "swap" (with the next byte)
 	Byte  int    `json:"byte,omitempty"`  // mutate: replacement byte for "set"
 	Pad   int    `json:"pad,omitempty"`   // scan: extra characters in the definition (shifts the ORIGIN block in the stream)
+	Mix   int    `json:"mix,omitempty"`   // scan: line i of the ORIGIN block ends in CRLF iff bit (i mod 7) of Mix is set (a block with mixed line ends)
 	Deliv int    `json:"deliv,omitempty"` // scan, stream: how the reader hands the bytes over (deliveryNames)
 	Lens  []int  `json:"lens,omitempty"`  // stream: residue counts of the records of one stream (record k uses Alpha rotated by k)
 }
@@ -157,10 +158,25 @@ func c16Check(c c16Case) *Violation {
 	case "scan":
 		text := c16RecordPad(c.Len, want, c.Pad)
 		lf, cr := scanOne(text, c.Deliv), scanOne(crlf(text), c.Deliv)
-		for _, x := range []struct {
+		runs := []struct {
 			name string
 			r    scanResult
-		}{{"LF", lf}, {"CRLF", cr}} {
+		}{{"LF", lf}, {"CRLF", cr}}
+		if c.Mix != 0 {
+			// the slow path reads line by line: which lines end in CRLF is a matter of each line
+			var mixed strings.Builder
+			for i, line := range strings.SplitAfter(want, "\n") {
+				if line != "" && c.Mix>>(uint(i)%7)&1 == 1 {
+					line = strings.TrimSuffix(line, "\n") + "\r\n"
+				}
+				mixed.WriteString(line)
+			}
+			runs = append(runs, struct {
+				name string
+				r    scanResult
+			}{fmt.Sprintf("mixed-line-ends(%b)", c.Mix), scanOne(c16RecordPad(c.Len, mixed.String(), c.Pad), c.Deliv)})
+		}
+		for _, x := range runs {
 			if x.r.panic != nil {
 				return panicViolation(fmt.Sprintf("scanning a %d-residue record (%s)", c.Len, x.name), x.r.panic)
 			}
@@ -402,6 +418,19 @@ func TestC16(t *testing.T) {
 		}
 	}
 	e6.done(true)
+	// mixed line ends inside one block: every pattern of LF / CRLF over the first seven lines
+	em := enumPart(t, c16Prop, st, "mixed-line-ends")
+	for _, n := range []int{1, 60, 61, 70, 119, 120, 121, 185, 421, 600, 1021} {
+		for mix := 1; mix < 128; mix++ {
+			if n <= 120 && mix >= 8 {
+				break
+			}
+			if !em.try(c16Case{Mode: "scan", Len: n, Alpha: "acgt", Mix: mix, Pad: mix % 3}) {
+				return
+			}
+		}
+	}
+	em.done(true)
 	// deliveries: the same records through readers that hand the bytes over in other portions (one byte at a time, 7,
 	// 4095, 4096+1, half of what is asked for, ragged, last bytes together with io.EOF)
 	e7 := enumPart(t, c16Prop, st, "deliveries")
